@@ -45,6 +45,22 @@ Record later := mkLater {
   leffect : nat
 }.
 
+(* the part of the event log the ordering checks look at (positions = stamps) *)
+Inductive ev :=
+| VCloseCall (k : nat) | VCloseRet (k : nat)
+| VOwned (c : nat)          (* the agent owns socket c *)
+| VRead (c : nat)           (* candidate c's recvLoop entered its first ReadFrom *)
+| VAbort (c : nat)          (* first SetDeadline(past) / Close of socket c *)
+| VSockClose (c : nat)      (* first Close of socket c *)
+| VRecvExit (c : nat)       (* a ReadFrom on c failed: the recvLoop exits *)
+| VWBlockLoop (c : nat)     (* a socket write on the loop goroutine starts blocking *)
+| VWBlockOff (c : nat)      (* a socket write on another goroutine starts blocking *)
+| VWRet (c : nat)           (* a blocked write returned *)
+| VState (v : nat)          (* OnConnectionStateChange entered with state v *)
+| VBH                       (* BindingRequestHandler entered (on the loop goroutine) *)
+| VTask                     (* a harness task body entered (on the loop goroutine) *)
+| VOther.
+
 Record obs := mkObs {
   o_closers : list closer;
   o_calls : list call;
@@ -53,7 +69,8 @@ Record obs := mkObs {
   o_latecb : nat;           (* callbacks entered after a GracefulClose (own goroutine) returned *)
   o_left : list string;     (* goroutines started by the agent alive at the census *)
   o_connected : bool;
-  o_returned : bool         (* some closer returned *)
+  o_returned : bool;        (* some closer returned *)
+  o_events : list ev
 }.
 
 Definition state_closed : nat := 7.
@@ -170,6 +187,52 @@ Definition final_state_closed (o : obs) : bool :=
 
 Definition closed_once (o : obs) : bool := Nat.eqb (count_nat state_closed (o_states o)) 1.
 
+(* ---- ordering of the observable actions ------------------------------------------------------
+   Each check is the instance, at an observable action of the real run, of an invariant proved for
+   every reachable state of the close-protocol model (Proofs/CloseProtoProofs.v):
+     a closer returns only after taskLoopDone, i.e. after the last task, after every registered
+     candidate's socket was closed and its recvLoop exited, after Closed was enqueued. *)
+Definition is_close_ret (e : ev) : bool := match e with VCloseRet _ => true | _ => false end.
+Definition is_close_call (e : ev) : bool := match e with VCloseCall _ => true | _ => false end.
+Definition is_closed_state (e : ev) : bool := match e with VState v => Nat.eqb v state_closed | _ => false end.
+
+Fixpoint prefix_before (p : ev -> bool) (l : list ev) : list ev :=
+  match l with
+  | [] => []
+  | e :: t => if p e then [] else e :: prefix_before p t
+  end.
+Fixpoint suffix_after (p : ev -> bool) (l : list ev) : list ev :=
+  match l with
+  | [] => []
+  | e :: t => if p e then t else suffix_after p t
+  end.
+
+Definition on_loop (e : ev) : bool :=
+  match e with VWBlockLoop _ | VBH | VTask => true | _ => false end.
+
+Definition owned_in (l : list ev) : list nat :=
+  flat_map (fun e => match e with VOwned c => [c] | _ => [] end) l.
+Definition readers_in (l : list ev) : list nat :=
+  flat_map (fun e => match e with VRead c => [c] | _ => [] end) l.
+Definition closed_in (c : nat) (l : list ev) : bool :=
+  existsb (fun e => match e with VSockClose c' => Nat.eqb c c' | _ => false end) l.
+Definition exited_in (c : nat) (l : list ev) : bool :=
+  existsb (fun e => match e with VRecvExit c' => Nat.eqb c c' | _ => false end) l.
+
+(* nothing runs on the loop goroutine once a closer has returned *)
+Definition no_task_after_return (l : list ev) : bool :=
+  forallb (fun e => negb (on_loop e)) (suffix_after is_close_ret l).
+
+(* every socket the agent owned when the first closer was invoked is closed, and every recvLoop
+   that was reading has exited, before the first closer returns / before Closed is notified *)
+Definition teardown_before (stop : ev -> bool) (l : list ev) : bool :=
+  let pre := prefix_before stop l in
+  let owned := owned_in (prefix_before is_close_call l) in
+  let readers := readers_in (prefix_before is_close_call l) in
+  forallb (fun c => closed_in c pre) owned && forallb (fun c => exited_in c pre) readers.
+
+Definition has (p : ev -> bool) (l : list ev) : bool := existsb p l.
+
 (* ---- the monitor ----------------------------------------------------------------------------- *)
 Definition guard (g b : bool) : bool := implb g b.
 
@@ -197,7 +260,12 @@ Definition C08_checks (o : obs) : checks :=
     ("C08.final_state_closed", guard (ok && negb wn) (final_state_closed o));
     ("C08.callback_once", guard (ok && negb wn) (closed_once o));
     ("C08.graceful_waits_for_callbacks", guard (ok && negb wn) (Nat.eqb (o_latecb o) 0));
-    ("C08.no_goroutine_left", guard (ok && negb wn) (match o_left o with [] => true | _ => false end)) ].
+    ("C08.no_goroutine_left", guard (ok && negb wn) (match o_left o with [] => true | _ => false end));
+    ("C08.order:no_task_after_close_returned", guard ok (no_task_after_return (o_events o)));
+    ("C08.order:teardown_before_close_returns",
+       guard (ok && has is_close_ret (o_events o)) (teardown_before is_close_ret (o_events o)));
+    ("C08.order:teardown_before_closed_notified",
+       guard (ok && has is_closed_state (o_events o)) (teardown_before is_closed_state (o_events o))) ].
 
 Definition C08_monitor (o : obs) : bool := all_ok (C08_checks o).
 
